@@ -5,6 +5,7 @@ Each check = (1) proof step: build BinlogVerif.Props.<id>, audit axioms;
 (3) implementation-side property monitor on the same generated cases (used as the failing-input
     search when (1) or (2) breaks, and run on every check anyway)."""
 import random
+import hashlib
 import sys
 import os
 
@@ -46,6 +47,16 @@ def cases_count(ctx, quick, thorough):
 
 def report_corr(ctx, stream, lines, impl, model, mism, prop_fail_keys):
     """correspondence mismatches that are not explained by a property failure on the same case"""
+    # a case on which the real code died (sanitizer report, failed assertion, crash) while the model runs it normally is a
+    # concrete failing input: whatever the property promises for that input is not delivered
+    for at, err in getattr(ctx, 'died', {}).get(stream, [])[:3]:
+        if at in prop_fail_keys:
+            continue
+        prop_fail_keys.add(at)
+        ctx.violation('crash-%s-%s' % (stream, hashlib.sha256(lines[at].encode()).hexdigest()[:10]),
+                      '%s: the real code aborted (sanitizer report / failed assertion / crash) on a case the model runs normally (stream %s)' % (ctx.pid, stream),
+                      {'kind': 'input', 'stream': stream, 'input_line': lines[at][:20000], 'stderr_tail': err,
+                       'model': model[at] if at < len(model) else None})
     for i in mism[:3]:
         a = impl[i] if i < len(impl) else '<none>'
         b = model[i] if i < len(model) else '<none>'
